@@ -143,6 +143,101 @@ def shard_send_loop(ctx, params_name, start, step):
             ctx.finding(sig, detail, case, 'send_loop')
 
 
+def check_multi_send(msgs):
+    """Several messages in flight at once: msgs = [[params name, hand-over time in ms after start, initial draw, gap draw]].
+    The real send loop runs on a stepping clock; messages are handed over when the clock has reached their time.  Every
+    message keeps its own envelope: 1 + repeat transmissions, each no earlier than scheduled and within the 10 ms raster."""
+    from sdc11073.wsdiscovery import networkingthread as nt_mod
+    from sdc11073.wsdiscovery import wsdimpl
+    from sdc11073.xml_types import wsd_types
+    from sdc11073.xml_types.addressing_types import HeaderInformationBlock
+
+    def mk(n):
+        payload = wsd_types.ProbeType()
+        inf = HeaderInformationBlock(action=payload.action, addr_to='urn:docs-oasis-open-org:ws-dd:ns:discovery:2009:01',
+                                     message_id=f'urn:uuid:00000000-0000-0000-0000-{n:012d}')
+        return wsdimpl._mk_wsd_soap_message(inf, payload)  # noqa: SLF001
+
+    nt = H.mk_networking_thread()
+    rnd = H.FixedRandom()
+    pending = sorted(([m[1], i, m] for i, m in enumerate(msgs)), key=lambda x: (x[0], x[1]))
+    handed = {}  # index -> hand-over time
+
+    class Clock(H.SteppingTime):
+        def sleep(self, dt):
+            super().sleep(dt)
+            hand_over()
+
+    clock = Clock(1000.0)
+
+    def hand_over():
+        while pending and 1000.0 + pending[0][0] / 1000.0 <= clock.now + 1e-9:
+            _at, i, (pname, _a, initial, gap) = pending.pop(0)
+            rnd.values.extend([initial, gap])
+            handed[i] = clock.now
+            nt.add_outbound_message(mk(i + 1), '239.255.255.250', 3702, getattr(nt_mod, pname))
+        if not pending:
+            nt._quit_send_event.set()  # noqa: SLF001  (the loop ends when everything handed over has been sent)
+
+    sock = H.FakeSock(clock)
+    nt._outbound_selector = H.FakeSelector(sock)  # noqa: SLF001
+    old_r, old_t = nt_mod.random, nt_mod.time
+    nt_mod.random, nt_mod.time = rnd, clock
+    try:
+        hand_over()
+        if pending:
+            nt._quit_send_event.clear()  # noqa: SLF001
+        nt._run_send()  # noqa: SLF001
+    finally:
+        nt_mod.random, nt_mod.time = old_r, old_t
+    out = []
+    # (messages are handed over at the end of a sleep of the loop, so an idle sleep never delays a queued message here)
+    raster = nt_mod.SEND_LOOP_BUSY_SLEEP + 1e-4
+    for i, (pname, _at, initial, gap) in enumerate(msgs):
+        params = getattr(nt_mod, pname)
+        marker = f'00000000-0000-0000-0000-{i + 1:012d}'.encode()
+        sent = [t for t, data, _a in sock.sent if marker in data]
+        if len(sent) != 1 + params.repeat:
+            out.append((f'{P}/multi/count', f'message {i} of {msgs}: {len(sent)} transmissions, expected {1 + params.repeat}'))
+            continue
+        initial = min(max(initial, 0), params.max_initial_delay_ms)
+        delta = min(max(gap, params.min_delay_ms), params.max_delay_ms - 1) / 1000.0
+        t_sched = handed[i] + initial / 1000.0
+        scheduled = [t_sched]
+        for _ in range(params.repeat):
+            t_sched += delta
+            scheduled.append(t_sched)
+            delta = min(2 * delta, params.upper_delay_ms / 1000.0)
+        for k, (want, got) in enumerate(zip(scheduled, sent)):
+            if got < want - TOL:
+                out.append((f'{P}/multi/early', f'message {i} of {msgs}: transmission {k + 1} at +{got - handed[i]:.4f}s, '
+                                                f'envelope says +{want - handed[i]:.4f}s'))
+                break
+            if got > want + raster:
+                out.append((f'{P}/multi/late', f'message {i} of {msgs}: transmission {k + 1} at +{got - handed[i]:.4f}s, '
+                                               f'envelope says +{want - handed[i]:.4f}s (raster {raster:.3f}s)'))
+                break
+    return out
+
+
+def st_multi():
+    from hypothesis import strategies as st
+    one = st.tuples(st.sampled_from(['UNICAST_REPEAT_PARAMS', 'MULTICAST_REPEAT_PARAMS']), st.integers(0, 1500),
+                    st.integers(0, 500), st.integers(50, 250)).map(list)
+    return st.lists(one, min_size=2, max_size=4).map(lambda ms: [[ms[0][0], 0, *ms[0][2:]], *ms[1:]])
+
+
+def multi_case(ctx, msgs):
+    ctx.case(msgs, True, 'multi', classes=(f'messages={len(msgs)}',))
+    return check_multi_send(msgs)
+
+
+def shard_multi(ctx, n):
+    import logging
+    logging.disable(logging.CRITICAL)
+    R.hyp_campaign(ctx, 'multi', st_multi(), lambda m: multi_case(ctx, m), n)
+
+
 def check_loopback(n_msgs: int):
     """Own outbound messages that multicast loops back must not be dispatched; foreign ones must be."""
     from sdc11073.wsdiscovery import networkingthread as nt_mod
@@ -183,6 +278,52 @@ def check_loopback(n_msgs: int):
     if sorted(m for m in wsd.got if m not in own_ids) != sorted(foreign_ids):
         out.append((f'{P}/foreign-message-lost', f'{len(foreign_ids)} foreign messages fed, '
                                                  f'{len([m for m in wsd.got if m not in own_ids])} dispatched'))
+    return out
+
+
+def check_loopback_interleaved(prefill: int, n_msgs: int):
+    """The node has already seen `prefill` foreign message ids (its memory holds 200); then, n times: it sends a message
+    itself, a new foreign message arrives, and multicast loops the own message back.  The own message is never dispatched,
+    every foreign one exactly once."""
+    from sdc11073.wsdiscovery import networkingthread as nt_mod
+    from sdc11073.wsdiscovery import wsdimpl
+    from sdc11073.xml_types import wsd_types
+    from sdc11073.xml_types.addressing_types import HeaderInformationBlock
+
+    class Wsd:
+        def __init__(self):
+            self.got = []
+
+        def handle_received_message(self, received_message, addr):  # noqa: ARG002
+            self.got.append(received_message.p_msg.header_info_block.MessageID)
+
+    def mk(n):
+        payload = wsd_types.ProbeType()
+        inf = HeaderInformationBlock(action=payload.action, addr_to='urn:docs-oasis-open-org:ws-dd:ns:discovery:2009:01',
+                                     message_id=f'urn:uuid:00000000-0000-0000-0000-{n:012d}')
+        return wsdimpl._mk_wsd_soap_message(inf, payload)  # noqa: SLF001
+
+    wsd = Wsd()
+    nt = H.mk_networking_thread(wsd)
+    H.run_q_read(nt, [(('10.0.0.1', 3702), mk(100_000 + k).serialize()) for k in range(prefill)])
+    out = []
+    if len(wsd.got) != prefill:
+        out.append((f'{P}/foreign-message-lost', f'{prefill} foreign messages fed, {len(wsd.got)} dispatched'))
+    for i in range(n_msgs):
+        own, foreign = mk(2 * i + 1), mk(2 * i + 2)
+        own_id, foreign_id = own.p_msg.header_info_block.MessageID, foreign.p_msg.header_info_block.MessageID
+        del wsd.got[:]
+        nt.add_outbound_message(own, '239.255.255.250', 3702, nt_mod.MULTICAST_REPEAT_PARAMS)
+        H.run_q_read(nt, [(('10.0.0.1', 3702), foreign.serialize()), (('127.0.0.1', 3702), own.serialize()),
+                          (('127.0.0.1', 3702), own.serialize())])
+        if own_id in wsd.got:
+            out.append((f'{P}/own-message-dispatched/memory-{"full" if prefill >= 200 else "not-full"}',  # noqa: PLR2004
+                        f'after {prefill} foreign ids: own message {i} was dispatched {wsd.got.count(own_id)} time(s) when '
+                        f'looped back after one new foreign message'))
+            break
+        if wsd.got.count(foreign_id) != 1:
+            out.append((f'{P}/foreign-message-lost', f'foreign message dispatched {wsd.got.count(foreign_id)} times'))
+            break
     return out
 
 
@@ -270,6 +411,7 @@ def run(ctx):
     R.run_shards(ctx, __name__, 'shard_send_loop',
                  [(name, s, stride * 4) for name in ('UNICAST_REPEAT_PARAMS', 'MULTICAST_REPEAT_PARAMS')
                   for s in (0, stride, 2 * stride, 3 * stride)])
+    R.run_shards(ctx, __name__, 'shard_multi', [(40 if ctx.tier == 'quick' else 1500,)] * 8)
     import itertools
     for name in ('UNICAST_REPEAT_PARAMS', 'MULTICAST_REPEAT_PARAMS'):
         n_tx = 1 + getattr(nt_mod, name).repeat
@@ -280,6 +422,11 @@ def run(ctx):
                 for sig, detail in check_loopback_with_faults(name, tuple(faults)):
                     ctx.finding(sig, detail, case, 'loopback_faults')
     ctx.exhaustive_parts.append('loopback_faults: every subset of failing transmissions, both parameter sets')
+    for prefill in (0, 150, 199, 200, 201, 260, 450):
+        case = {'prefill': prefill, 'n_msgs': 3}
+        ctx.case(case, prefill >= 199, 'loopback_interleaved')  # noqa: PLR2004
+        for sig, detail in check_loopback_interleaved(prefill, 3):
+            ctx.finding(sig, detail, case, 'loopback_interleaved')
     for n in (1, 5, 60):  # up to 120 own ids: inside the 200 ids the node remembers
         case = {'n_msgs': n}
         ctx.case(case, True, 'loopback')
@@ -288,6 +435,10 @@ def run(ctx):
 
 
 def replay(part, case):
+    if part == 'multi':
+        return check_multi_send([list(m) for m in case])
+    if part == 'loopback_interleaved':
+        return check_loopback_interleaved(case['prefill'], case['n_msgs'])
     if part == 'loopback_faults':
         return check_loopback_with_faults(case['params'], tuple(case['faults']))
     if part == 'schedule':
